@@ -26,7 +26,7 @@ structure MergeSt where
   parentCtx : Ctx := Ctx.nil
   /-- `subscriptions := NewSubscription(nil)` (`:120`) -/
   comp : Comp := {}
-  /-- `i := int64(0)` of MergeMapIWithContext (`:205`) -/
+  /-- `i := int64(0)` of MergeMapIWithContext (`:207`, per subscription since fix 11bf135) -/
   i : Nat := 0
 deriving Repr
 
@@ -92,11 +92,11 @@ def raceM (n : Nat) : MMachine RaceSt α α where
   boot sub := (List.range n).flatMap (fun j => [
     -- :1043-1069  if a winner exists: `continue`; else subscribe
     (fun s => if s.won != -1 then ({ s with pending := none }, []) else ({ s with pending := some j }, [.sub j sub])),
-    -- :1072-1085  store the subscription / unsubscribe a loser / (winner: neither)
+    -- :1072-1085  `if !hasWinner || isWinner { subscriptions[j] = sub } else { sub.Unsubscribe() }`
+    -- (since fix 5ca7c2d a source that won inside its own Subscribe is stored too)
     (fun s => if s.pending = some j then
-        (if s.won = -1 then ({ s with stored := s.stored ++ [j], pending := none }, [])
-         else if s.won != Int.ofNat j then ({ s with pending := none }, [.unsub j])
-         else ({ s with pending := none }, []))
+        (if s.won = -1 || s.won = Int.ofNat j then ({ s with stored := s.stored ++ [j], pending := none }, [])
+         else ({ s with pending := none }, [.unsub j]))
       else (s, [])) ])
   react j n := [raceReact j n]
   teardown s := (s, s.stored)                                       -- :1088-1090 unsubscribeOthers(-1)
@@ -126,7 +126,8 @@ def takeUntilM : MMachine UntilSt α α where
       | .complete c => [fun s => (s, [.emit (.complete c)])]                           -- :529
     else
       match n with
-      | .next c _ => [fun s => ({ s with ready := true }, [.emit (.complete c)])]       -- :537-540
+      | .next c _ => [fun s => (s, [.emit (.complete c)]),               -- :542 destination.CompleteWithContext(ctx)
+                      fun s => ({ s with ready := true }, [])]           -- :543 then Store(ready, 1) (order since fix 3e5361a)
       | .error _ _ => [fun s => (s, [])]      -- OnNextWithContext: empty onError (observer.go:213-218)
       | .complete _ => [fun s => (s, [])]     -- … and empty onComplete
   teardown s := ({ s with comp := s.comp.unsubscribe.1 }, s.comp.unsubscribe.2)
